@@ -103,6 +103,9 @@ def factorize {R : Type} (O : ValOps R) (cheb : Bool) (n : Nat) (p : List R) : L
       if 2 * n - i < p.length ∧ n - i ≥ 1 then O.sub base (p.getD (2 * n - i) (O.ofNat 0)) else base
     (q, r)
 
+/-- the guard of `bignum.Polynomial.Factorize(n)`: `if n < (p.Degree()+1)>>1 { panic }` -/
+def factorizeGuard (n : Nat) (len : Nat) : Bool := n < (len - 1 + 1) / 2
+
 /-- the split power chosen by `recursePS`: `nextPower = 1 << logSplit; for nextPower < (deg>>1)+1 { <<= 1 }` -/
 def nextPowerLoop (deg : Nat) : Nat → Nat → Nat
   | 0, np => np
@@ -139,10 +142,6 @@ structure Opd where
   scale : Nat
   deg : Nat
   val : List Int
-  /-- the degree-2 component `Value[2]` holds data (product not yet relinearised) -/
-  c2 : Bool := false
-  /-- the ciphertext no longer decrypts to `val` (see `mulThenAddConst`) -/
-  bad : Bool := false
   deriving Inhabited
 
 structure St where
@@ -192,7 +191,7 @@ def rescaleOp (env : Env) (o : Opd) : M Opd := do
 
 def relinOp (env : Env) (o : Opd) : M Opd := do
   log s!"relin({showOpd env o})"
-  pure { o with deg := 1, c2 := false }
+  pure { o with deg := 1 }
 
 def zipV (f : Int → Int → Int) (a b : List Int) : List Int := List.zipWith f a b
 
@@ -201,32 +200,24 @@ def mulOp (env : Env) (name : String) (relin : Bool) (a b : Opd) : M Opd := do
   log s!"{name}({showOpd env a},{showOpd env b})"
   let v := zipV (fun x y => redV env (x * y)) a.val b.val
   pure { level := min a.level b.level, scale := mulS env a.scale b.scale,
-         deg := if relin then 1 else a.deg + b.deg, val := v, c2 := !relin, bad := a.bad || b.bad }
+         deg := if relin then 1 else a.deg + b.deg, val := v }
 
 def addCt (env : Env) (name : String) (sub : Bool) (a b : Opd) : M Opd := do
   log s!"{name}({showOpd env a},{showOpd env b})"
   let v := zipV (fun x y => redV env (if sub then x - y else x + y)) a.val b.val
-  pure { level := min a.level b.level, scale := a.scale, deg := max a.deg b.deg, val := v,
-         c2 := a.c2 || b.c2, bad := a.bad || b.bad }
+  pure { level := min a.level b.level, scale := a.scale, deg := max a.deg b.deg, val := v }
 
 def addConst (env : Env) (a : Opd) (c : List Int) : M Opd := do
   log s!"add({showOpd env a},c)"
   pure { a with val := zipV (fun x y => redV env (x + y)) a.val c }
 
-/-- `MulThenAdd(x, coefficient, res)` with a scalar or a slot vector (bgv evaluator.go:1170,1210; ckks
-    evaluator.go:945): the code does `opOut.Resize(op0.Degree(), opOut.Level())` — the accumulator is
-    resized to the degree of the POWER being added, at ITS OWN level, and then only components
-    `0..op0.Degree()` and limbs `0..min(levels)` are updated.  So a degree-2 accumulator holding data in
-    `Value[2]` loses it when a degree-1 power is added, and an accumulator above the power's level is
-    left with stale upper limbs.  Either way the ciphertext stops decrypting to the intended value. -/
+/-- `MulThenAdd(x, coefficient, res)` with a scalar or a slot vector: the accumulator is resized to the
+    larger of the two degrees and to the smaller of the two levels
+    (`opOut.Resize(utils.Max(op0.Degree(), opOut.Degree()), level)`), its scale is unchanged. -/
 def mulThenAddConst (env : Env) (x : Opd) (c : List Int) (res : Opd) : M Opd := do
   log s!"multhenadd({showOpd env x},c,{showOpd env res})"
   let v := zipV (fun r xc => redV env (r + xc)) res.val (zipV (· * ·) x.val c)
-  let lost := (res.deg > x.deg && res.c2) || x.level < res.level
-  -- a zero coefficient contributes nothing to `Value[2]`
-  let cnz := c.any fun a => if env.t = 0 then a != 0 else a % (env.t : Int) != 0
-  pure { res with deg := x.deg, val := v, c2 := x.deg == 2 && (res.c2 || (x.c2 && cnz)),
-                  bad := res.bad || x.bad || lost }
+  pure { res with level := min res.level x.level, deg := max res.deg x.deg, val := v }
 
 /-! ### power basis -/
 
@@ -422,10 +413,12 @@ def evaluate (env : Env) (polys : List (List Int)) (mapping : Option (List (List
     (lazy : Bool) (inLevel : Nat) (inScale targetScale : Nat) (x : List Int) : M Opd := do
   let deg := (polys.headD []).length - 1
   setP 1 { level := inLevel, scale := inScale, deg := 1, val := x }
+  -- a constant polynomial consumes no level: the encoding of its coefficient at the target scale
+  if deg = 0 then
+    return ← evalFromPowerBasis env mapping inLevel { coeffs := polys, maxDeg := 0, lead := true } targetScale
   -- depth check
   if inLevel < depthCheck deg then throw "err"
   let logDegree := bitLen deg
-  if logDegree = 0 then throw "panic"           -- 1 << (logDegree-1) with a negative shift count
   let logSplit := optimalSplit logDegree
   genPowerTop env (2 * deg + 8) (2 ^ (logDegree - 1)) false
   for k in [0:2 ^ logSplit] do
